@@ -28,10 +28,19 @@ def decP : Bytes → Nat → Option (Frame × Nat) := fun _ n => some (.headers 
 /-- client side: preface and a 9-byte frame written in two calls, a 9-byte frame read in two
 calls in between, then `Close` -/
 def callsX : List Call :=
-  [.write (clientPreface ++ [0, 0, 0, 1]) .ok, .read [0, 0, 0] .ok, .write [5, 0, 0, 0, 1] .ok, .read [1, 5, 0, 0, 0, 1] .ok,
+  [.write (clientPreface ++ [0, 0, 0, 1]) 28 .ok, .read [0, 0, 0] .ok, .write [5, 0, 0, 0, 1] 5 .ok, .read [1, 5, 0, 0, 0, 1] .ok,
    .close .ok]
 
 def wsX : List WEv :=
   [.frame true (.headers 1 fieldsA true), .frame false (.headers 1 [(":status", "200")] true), .lost (.closed "")]
+
+/-- client side: the request written in one call with a short count and no error, the response
+HEADERS (END_STREAM) read in two calls, the second one returning the last bytes together with
+`io.EOF` -/
+def callsEOF : List Call :=
+  [.write (clientPreface ++ [0, 0, 0, 1, 5, 0, 0, 0, 1]) 7 .ok, .read [0, 0, 0] (.timeout "T"), .read [1, 5, 0, 0, 0, 1] .eof]
+
+def wsEOF : List WEv :=
+  [.frame true (.headers 1 fieldsA true), .frame false (.headers 1 [(":status", "200")] true), .lost (.io "EOF")]
 
 end ConfModel.H2.Ex
